@@ -26,9 +26,14 @@ def RBranch.guard : RBranch → Guard | .mk _ g _ => g
 def RBranch.id : RBranch → String | .mk i _ _ => i
 
 /-- does some condition branch of the list hold? (then the `else` branch does not run) -/
+def RBranch.condHolds (b : RBranch) : Bool :=
+  match b.guard with
+  | .cond h => h
+  | .otherwise => false
+
 def anyCondHolds : List RBranch → Bool
   | [] => false
-  | b :: bs => (match b.guard with | .cond h => h | .otherwise => false) || anyCondHolds bs
+  | b :: bs => b.condHolds || anyCondHolds bs
 
 abbrev Answered := String → Bool
 
@@ -85,5 +90,51 @@ structure RWorkflow where
 
 def RWorkflow.done (a : Answered) (w : RWorkflow) : Bool := doneSteps a w.steps
 def RWorkflow.opens (a : Answered) (w : RWorkflow) : List String := opensSteps a w.steps
+
+end Acts.Ref
+
+namespace Acts.Ref
+
+/-- a branch whose condition holds and whose steps are all done (the engine decides the `else` branch only then) -/
+def holdingDone (a : Answered) : RBranch → Bool
+  | .mk _ (.cond true) ss => doneSteps a ss
+  | _ => false
+
+def anyHoldingDone (a : Answered) : List RBranch → Bool
+  | [] => false
+  | b :: bs => holdingDone a b || anyHoldingDone a bs
+
+/-! the nodes that have started, with the state the interpretation assigns to them.  The `else` branch is `pending` while a
+sibling whose condition holds is still running and `skipped` once such a sibling has finished (the code decides it then). -/
+mutual
+def statesStep (a : Answered) : RStep → List (String × String)
+  | .mk i c bs as =>
+    if !c then [(i, "skipped")]
+    else (i, if doneBranches a (anyCondHolds bs) bs && doneActs a as then "completed" else "running") ::
+      (statesBranches a (anyCondHolds bs) (anyHoldingDone a bs) bs ++ statesActs a as)
+def statesSteps (a : Answered) : List RStep → List (String × String)
+  | [] => []
+  | s :: ss => statesStep a s ++ (if doneStep a s then statesSteps a ss else [])
+def statesBranch (a : Answered) (someCond someDone : Bool) : RBranch → List (String × String)
+  | .mk i g ss =>
+    match g with
+    | .cond h =>
+      if !h then [(i, "skipped")] else (i, if doneSteps a ss then "completed" else "running") :: statesSteps a ss
+    | .otherwise =>
+      if someCond then [(i, if someDone then "skipped" else "pending")]
+      else (i, if doneSteps a ss then "completed" else "running") :: statesSteps a ss
+def statesBranches (a : Answered) (someCond someDone : Bool) : List RBranch → List (String × String)
+  | [] => []
+  | b :: bs => statesBranch a someCond someDone b ++ statesBranches a someCond someDone bs
+def statesAct (a : Answered) : RAct → List (String × String)
+  | .irq i c => [(i, if !c then "skipped" else if a i then "completed" else "interrupted")]
+  | .msg i c => [(i, if !c then "skipped" else "completed")]
+def statesActs (a : Answered) : List RAct → List (String × String)
+  | [] => []
+  | x :: xs => statesAct a x ++ (if doneAct a x then statesActs a xs else [])
+end
+
+def RWorkflow.states (a : Answered) (w : RWorkflow) : List (String × String) :=
+  (w.id, if doneSteps a w.steps then "completed" else "running") :: statesSteps a w.steps
 
 end Acts.Ref
